@@ -394,7 +394,7 @@ type Bad = Vec<(String, String)>;
 
 /// evaluate one expression through text (core evaluator, internal representation) and,
 /// if `api`, through `cedar_policy::eval_expression`; compare with the reference evaluator
-fn check_expr(group: &str, e: &E, api: bool, p: &Prep, l: &mut Local, bad: &mut Bad) -> R {
+fn check_expr(group: &str, e: &E, api: bool, p: &Prep, l: &mut Local, bad: &mut Bad) {
     let text = refsem::print::text(e, &Style::default());
     let expect = refsem::eval(e, &Env::new(&p.rreq, &p.rstore));
     match <ast::Expr as FromStr>::from_str(&text) {
@@ -424,7 +424,6 @@ fn check_expr(group: &str, e: &E, api: bool, p: &Prep, l: &mut Local, bad: &mut 
             }
         }
     }
-    expect
 }
 
 fn ctor_e(ty: usize, s: &str) -> E {
@@ -572,7 +571,9 @@ fn check_case(c: &Case, p: &Prep, l: &mut Local) -> Bad {
         Case::Ctor { ty, s, near } => check_ctor(*ty, s, *near, p, l, &mut bad),
         Case::Expr { group, e } => {
             let expect = refsem::eval(e, &Env::new(&p.rreq, &p.rstore));
-            l.case(hash_of(c), &format!("{group}:{}", outcome_class(&expect)), true);
+            // histogram class: the first two components of the group name
+            let short: Vec<&str> = group.split('-').take(2).collect();
+            l.case(hash_of(c), &format!("{}:{}", short.join("-"), outcome_class(&expect)), true);
             check_expr(group, e, true, p, l, &mut bad);
         }
     }
@@ -582,24 +583,6 @@ fn check_case(c: &Case, p: &Prep, l: &mut Local) -> Bad {
 // ---------------------------------------------------------------------------------------------
 // generators: constructor strings
 // ---------------------------------------------------------------------------------------------
-
-fn all_strings(alpha: &[char], max: usize) -> Vec<String> {
-    let mut out = vec![String::new()];
-    let mut frontier = vec![String::new()];
-    for _ in 0..max {
-        let mut next = Vec::with_capacity(frontier.len() * alpha.len());
-        for f in &frontier {
-            for a in alpha {
-                let mut q = f.clone();
-                q.push(*a);
-                next.push(q);
-            }
-        }
-        out.extend(next.iter().cloned());
-        frontier = next;
-    }
-    out
-}
 
 /// every 1-char deletion, substitution and insertion (alphabet `alpha`) of `s`
 fn mutations(s: &str, alpha: &str) -> Vec<String> {
@@ -625,6 +608,64 @@ fn mutations(s: &str, alpha: &str) -> Vec<String> {
         }
     }
     out
+}
+
+const DEC_ALPHA: [char; 8] = ['0', '1', '9', '-', '.', '+', ' ', 'a'];
+const DUR_ALPHA: [char; 8] = ['0', '1', '9', 'd', 'h', 'm', 's', '-'];
+const IP_ALPHA: [char; 6] = ['0', '1', 'f', ':', '.', '/'];
+
+fn sweep_len(tier: Tier) -> usize {
+    tier.pick(6, 7)
+}
+
+fn count_strings(k: usize, max: usize) -> u64 {
+    (0..=max as u32).map(|l| (k as u64).pow(l)).sum()
+}
+
+/// the idx-th string over `alpha` in (length, lexicographic) order
+fn nth_string(alpha: &[char], mut idx: u64) -> String {
+    let k = alpha.len() as u64;
+    let mut len = 0u32;
+    while idx >= k.pow(len) {
+        idx -= k.pow(len);
+        len += 1;
+    }
+    let mut cs = vec![alpha[0]; len as usize];
+    for i in (0..len as usize).rev() {
+        cs[i] = alpha[(idx % k) as usize];
+        idx /= k;
+    }
+    cs.into_iter().collect()
+}
+
+/// all strings up to `max` over `alpha` for constructor `ty`, generated on the fly
+fn sweep(ctx: &Ctx, ty: usize, alpha: &[char], max: usize) -> u64 {
+    let total = count_strings(alpha.len(), max);
+    let chunk = 2048u64;
+    let nchunks = (total + chunk - 1) / chunk;
+    (0..nchunks).into_par_iter().for_each(|i| {
+        let ci = (i + ctx.seed) % nchunks;
+        let p = Prep::new();
+        let mut l = Local::default();
+        for idx in ci * chunk..((ci + 1) * chunk).min(total) {
+            let c = Case::Ctor { ty, s: nth_string(alpha, idx), near: false };
+            run_case(ctx, &c, &p, &mut l);
+            if idx == 0 || idx + 1 == total || idx == total / 2 {
+                ctx.sample(json!({"case": c.text()}));
+            }
+        }
+        ctx.merge(l);
+    });
+    total
+}
+
+fn run_case(ctx: &Ctx, c: &Case, p: &Prep, l: &mut Local) {
+    let res = ctx.guard("C07 case", || c.to_json(), || check_case(c, p, l));
+    if let Some(bad) = res {
+        for (fp, what) in bad {
+            ctx.violation(fp, what, c.to_json());
+        }
+    }
 }
 
 fn decimal_templates() -> Vec<String> {
@@ -852,7 +893,7 @@ fn ip_grid(tier: Tier) -> Vec<String> {
     out
 }
 
-fn ip_templates(tier: Tier) -> Vec<String> {
+fn ip_templates() -> Vec<String> {
     let mut out: Vec<String> = Vec::new();
     let v6 = [
         "::", "::1", "1::", "::2", "1::1", "1:2:3:4:5:6:7:8", "1:2:3:4:5:6:7:8:9", "1:2:3:4:5:6:7", "1:2:3:4:5:6:7::", "::2:3:4:5:6:7:8", "1:2:3:4::5:6:7:8", "1:2:3::5:6:7:8", "1:2:3:4:5:6:7:8::", "::1:2:3:4:5:6:7:8", "1::2::3", "::1::",
@@ -879,28 +920,22 @@ fn ip_templates(tier: Tier) -> Vec<String> {
     for v in ["10.0.0.1", "10.0.0.1/32", "255.255.255.255/0", "::1", "ff00::/8", "1:2:3:4:5:6:7:8/128", "abcd:ef01:2345:6789:ABCD:EF01:2345:6789/128", "::ffff:a00:1", "1::8/64"] {
         out.extend(mutations(v, "0129afF:./g "));
     }
-    // all short strings over the structural alphabet
-    let n = tier.pick(5, 6);
-    out.extend(all_strings(&['0', '1', 'f', ':', '.', '/'], n));
     out
 }
 
 pub fn gen_ctor(tier: Tier) -> Vec<Case> {
-    let n = tier.pick(5, 6);
     let mut out: Vec<Case> = Vec::new();
-    let mut push = |ty: usize, v: Vec<String>, near: bool, out: &mut Vec<Case>| {
+    let push = |ty: usize, v: Vec<String>, near: bool, out: &mut Vec<Case>| {
         for s in v {
             out.push(Case::Ctor { ty, s, near });
         }
     };
-    push(0, all_strings(&['0', '1', '9', '-', '.', '+', ' ', 'a'], n), false, &mut out);
     push(0, decimal_templates(), true, &mut out);
-    push(3, all_strings(&['0', '1', '9', 'd', 'h', 'm', 's', '-'], n), false, &mut out);
     push(3, duration_templates(), true, &mut out);
     push(2, datetime_grid(tier), true, &mut out);
     push(2, datetime_templates(), true, &mut out);
     push(1, ip_grid(tier), true, &mut out);
-    push(1, ip_templates(tier), true, &mut out);
+    push(1, ip_templates(), true, &mut out);
     // every string is also fed to the three constructors it was not written for (a valid
     // duration is not a decimal ...): templates only
     let mut cross: Vec<Case> = Vec::new();
@@ -1004,8 +1039,12 @@ pub fn gen_ops(tier: Tier) -> Vec<Case> {
         for b in &ips {
             for c in ips.iter().step_by(step) {
                 push(
-                    "ip-isInRange-chain",
-                    E::and(E::and(call("isInRange", vec![ip_e(a), ip_e(b)]), call("isInRange", vec![ip_e(b), ip_e(c)])), E::not(call("isInRange", vec![ip_e(a), ip_e(c)]))),
+                    "ip-isInRange-triple",
+                    E::Rec(vec![
+                        ("ab".to_string(), call("isInRange", vec![ip_e(a), ip_e(b)])),
+                        ("bc".to_string(), call("isInRange", vec![ip_e(b), ip_e(c)])),
+                        ("ac".to_string(), call("isInRange", vec![ip_e(a), ip_e(c)])),
+                    ]),
                 );
                 push("ip-set-contains", E::bin(BinOp::Contains, E::Set(vec![ip_e(a), ip_e(b)]), ip_e(c)));
             }
@@ -1231,11 +1270,17 @@ pub fn run(tier: Tier, replay_file: Option<&str>) -> i32 {
     }
     let ctx = Ctx::new("C07", tier);
     quiet_panics();
+    let n = sweep_len(tier);
+    let mut swept = 0;
+    swept += sweep(&ctx, 0, &DEC_ALPHA, n);
+    swept += sweep(&ctx, 3, &DUR_ALPHA, n);
+    swept += sweep(&ctx, 1, &IP_ALPHA, n);
+    ctx.set_info("swept_strings", json!(swept));
     let mut cases = gen_ctor(tier);
     let n_ctor = cases.len();
     cases.extend(gen_ops(tier));
     let total = cases.len();
-    ctx.set_info("constructor_strings", json!(n_ctor));
+    ctx.set_info("template_and_grid_strings", json!(n_ctor));
     ctx.set_info("operation_expressions", json!(total - n_ctor));
     if ctx.seed != 0 && total > 0 {
         let k = (ctx.seed as usize) % total;
@@ -1245,25 +1290,19 @@ pub fn run(tier: Tier, replay_file: Option<&str>) -> i32 {
         let p = Prep::new();
         let mut l = Local::default();
         for (j, c) in chunk.iter().enumerate() {
-            let res = ctx.guard("C07 case", || c.to_json(), || check_case(c, &p, &mut l));
-            if let Some(bad) = res {
-                for (fp, what) in bad {
-                    ctx.violation(fp, what, c.to_json());
-                }
-            }
+            run_case(&ctx, c, &p, &mut l);
             ctx.sample_at(ci * 256 + j, total, || json!({"case": c.text()}));
         }
         ctx.merge(l);
     });
-    let n = tier.pick(5, 6);
     ctx.finish(
         "case = (constructor, argument string) or one operation expression over boundary values; non-trivial = the reference accepts the string, or the string is a boundary template / grid point / 1-char mutation of a valid string (not from the all-strings sweep), or the case is an operation expression",
         json!({
             "tier": tier.name(),
-            "decimal": {"all_strings_len": n, "alphabet": "01 9-.+ a", "templates": decimal_templates().len()},
+            "decimal": {"all_strings_len": n, "alphabet": "019-.+ a", "templates": decimal_templates().len()},
             "duration": {"all_strings_len": n, "alphabet": "019dhms-", "templates": duration_templates().len()},
             "datetime": {"grid": datetime_grid(tier).len(), "grid_years": tier.pick(4, 8), "templates_and_mutations": datetime_templates().len()},
-            "ip": {"v4_grid": ip_grid(tier).len(), "v4_grid_middle_octets": tier.pick(5, 13), "templates_mutations_short_strings": ip_templates(tier).len(), "short_strings_len": n},
+            "ip": {"v4_grid": ip_grid(tier).len(), "v4_grid_middle_octets": tier.pick(5, 13), "templates_and_mutations": ip_templates().len(), "all_strings_len": n, "alphabet": "01f:./"},
             "operations": {"datetime_values": dt_values().len(), "duration_values": dur_values().len(), "decimal_values": dec_values().len(), "ip_values": ip_values().len(), "third_operand_step": tier.pick(3, 1)},
             "paths": ["text+core evaluator (internal representation)", "RestrictedExpression::new_* in Context", "eval_expression"],
         }),
